@@ -450,3 +450,91 @@ def fh_table(tid: int, seed: int) -> dict:
                 exc = type(e).__name__
             ev.append(dict(side="E", call="set_handler", cond=cond.name, code=names[code], exc=exc, got=got))
     return dict(tid=tid, kind="fhtable", cfg=mkcfg(), sched=[], fs0=[], props=[], ev=ev)
+
+
+def isolation(tid: int, seed: int) -> list:
+    """C11: a transaction T after a random history H of earlier transactions on the SAME handler objects (completed, cancelled
+    by either user, faulted to the limits, cut off and abandoned, reset mid-way), optionally while sibling handler instances
+    of the same process are mid-transaction, versus the same T on freshly constructed handlers.
+    Returns [fresh-run trace with ev2 = the T-part of the reused run (judged by monitor C11), the reused run (conformance)]."""
+    import pair as pairmod
+    rng = random.Random(seed)
+    n = rng.choice([0, 1, 3, 5])
+    nh = rng.choice([1, 1, 2, 3])
+    modes = ["none", "ACK", "UNACK"]
+    more = [dict(putMode=rng.choice(modes), putClosure=rng.choice(["none", "true", "false"]), gap=rng.choice([0, 700, 5000])) for _ in range(nh)]
+    cfg = mkcfg(mode=rng.choice(["ACK", "UNACK"]), closure=rng.random() < 0.5, immNak=rng.random() < 0.5, segLen=rng.choice([1, 2]),
+                ackLim=2, nakLim=2, chkLim=2, file=[rng.randrange(256) for _ in range(n)], chk=rng.choice(["CRC32", "CRC32C", "NULL"]),
+                putMode=rng.choice(modes), putClosure=rng.choice(["none", "true", "false"]), more=more, seq0=rng.choice([0, 254]), seqW=1,
+                disp=rng.random() < 0.5)
+    a = pairmod.Pair(cfg)
+    sib = None
+    try:
+        a.put()
+        for k in range(nh):
+            ending = rng.choice(["complete", "cancelS", "cancelD", "drops", "cut", "reset"])
+            if ending in ("cancelS", "cancelD", "reset"):
+                for _ in range(rng.randint(0, 6)):       # a few canonical steps, then the user steps in
+                    a.run_on(max_turns=1, one_txn=True)
+                if ending == "reset":
+                    a.w.call("S", "reset")
+                    a.w.call("D", "reset")
+                    a.q["sd"].clear()
+                    a.q["ds"].clear()
+                elif (a.w.src if ending == "cancelS" else a.w.dst).state.name == "BUSY":
+                    a.cancel("S" if ending == "cancelS" else "D")
+            script = {}
+            if ending == "drops":
+                script = {(rng.choice(["sd", "ds"]), rng.randint(0, 6)): rng.choice(["drop", "dup"]) for _ in range(rng.randint(1, 3))}
+            if ending == "cut":
+                for _ in range(rng.randint(1, 6)):
+                    a.run_on(max_turns=1, one_txn=True)
+                a.fault("cut", rng.choice(["sd", "ds"]))
+            ok = a.run_on(script=script, one_txn=True)
+            a.cut.clear()
+            if not ok:                                     # hung (e.g. finding F01): the application gives up
+                a.w.call("S", "reset")
+                a.w.call("D", "reset")
+                a.q["sd"].clear()
+                a.q["ds"].clear()
+            if k < nh - 1:
+                a.put(more[k]["gap"])
+        # ---- T on the reused handlers ----
+        n0 = len(a.w.ev)
+        seq_at = a.w.seqprov.n
+        old = [f for f in a.w.snapshot("D") if f["p"] == "d/" + cfg["dstName"] and not f["dir"]]
+        tscript = rng.choice([{}, {}, {("sd", rng.randint(0, 4)): "drop"}, {("ds", rng.randint(0, 2)): "drop"}, {("sd", rng.randint(1, 3)): "dup"}])
+        sibling = None
+        if rng.random() < 0.5:
+            # sibling handler instances (own objects) of the same process, mid-transaction with lost segments outstanding
+            now = Clock.now
+            sib = pairmod.Pair(mkcfg(immNak=False, segLen=1, file=[1, 2, 3, 4], seq0=77, srcName="sib.bin", dstName="sibdst.bin"), keep_clock=True)
+            Clock.now = now
+            sib.put()
+            for _ in range(4):
+                sib.run_on(max_turns=1, one_txn=True)
+            sib.fault("drop", "sd")
+            sibling = lambda: sib.run_on(max_turns=1, one_txn=True) if rng.random() < 0.5 else None  # noqa: E731
+        gap = more[nh - 1]["gap"]
+        a.put(gap)
+        a_done = a.run_on(script=dict(tscript), one_txn=True, sibling=sibling)
+        ev2 = a.w.ev[n0:]
+        # ---- T on fresh handlers ----
+        t_mode, t_clo = more[nh - 1]["putMode"], more[nh - 1]["putClosure"]
+        cfg_b = dict(cfg, putMode=t_mode, putClosure=t_clo, more=[], seq0=seq_at,
+                     dstShape="existing" if old else "file", dstOld=old[0]["d"] if old else [])
+        b = pairmod.Pair(cfg_b)
+        try:
+            b.put()
+            b_done = b.run_on(script=dict(tscript), one_txn=True)
+            tb = b.w.trace(tid, "pair", sched=[["script", str(sorted(tscript.items()))]])
+            tb.update(props=["C11", "C10"], nfaults=b.nfaults, ncorrupt=0, done=b_done, cuts=[], ev2=ev2, done2=a_done)
+        finally:
+            b.w.cleanup()
+        ta = a.w.trace(tid + 1000000, "pair")
+        ta.update(props=["C10"], nfaults=a.nfaults, ncorrupt=a.ncorrupt, done=a_done, cuts=[])
+        return [tb, ta]
+    finally:
+        a.w.cleanup()
+        if sib is not None:
+            sib.w.cleanup()
